@@ -13,7 +13,7 @@ def run(ctx, only=None):
                 'over a sorted copy (percentile: the element of rank floor(len*p/100) clamped to the last, the only total reading at p = 100). case = one input multiset; '
                 'non-trivial = non-empty input; distinct = distinct inputs')
     ctx.assumptions = ['oracle definitions in harness/libmon/src/bin/c17_agg.rs']
-    if not any(r.get('done') for r in recs):
+    if not any(r.get('done') for r in recs) and not libmon.report_crash(ctx, 'c17_agg', args, rc, err):
         ctx.inconc('monitor binary did not finish (rc=%s): %s' % (rc, err[-300:]))
     for r in recs:
         if 'inputs' in r:
